@@ -13,15 +13,19 @@ MANIFEST = dict(
     text="Coq theorems (coq/Props/C19.v): NAME law - over every action list of the pipeline model every path of every queued "
          "event is empty or the watched root followed by valid entry names (C19_pipeline_paths, via the reader invariant "
          "C19_reader_inv through construct/read_batch/re-key/simulate and the emitter law C19_event_paths incl. synthetic events "
-         "through C14); TYPE law - a typed transcription of queue_events whose erasure is the validated emitter model carries the "
+         "through C14; for a root spelled with trailing separators the reader keeps 'every stored path is os.path.join of the "
+         "root along valid names' over every batch incl. settle_pending/_forget_tree/stale-key clean-up/re-key/simulate "
+         "(C19_reader_any_root, C19_rekey_any_root) and the emitter law holds for every non-empty root "
+         "(C19_event_paths_any_root)); TYPE law - a typed transcription of queue_events whose erasure is the validated emitter model carries the "
          "watch's tag on every non-empty path (C19_type, C19_type_erase), polling join keeps the tag (C19_polling_type) and both "
          "backends yield the same value for the same entry (C19_agree, C19_event_agree). Lock-step pipeline correspondence on the real "
          "kernel with names from an alphabet incl. non-ASCII and undecodable bytes; oracle on the inotify and the polling "
          "observer: type of every path = type of the watched path (Path -> str) and fsencode(path) = the spelled root joined "
          "with the entry's real relative name.",
     note="Trusted: as C01; os.fsencode/os.fsdecode are taken as mutually inverse on file names (surrogateescape) - validated on "
-         "the alphabet, not proved; relative and trailing-slash spellings of the root are covered by the oracle only (the "
-         "pipeline model is keyed by the absolute spelling).",
+         "the alphabet, not proved; relative spellings of the root are covered by the theorems (any non-empty root without a trailing '/'); "
+         "trailing-slash spellings by the reader and emitter theorems for any root and by the oracle - the composed pipeline "
+         "model is keyed by the normalised spelling and cannot be constructed on them (C19_pipeline_root).",
     technique="Coq proof (typed path algebra over the emitter model) + lock-step correspondence on the real kernel + type/name oracle on inotify and polling observers",
 )
 TRUSTED = pipecheck.TRUSTED + ["os.fsencode/os.fsdecode (surrogateescape) are modelled as a bijection on names"]
